@@ -1,14 +1,14 @@
 (* Properties.v — the property theorems, and nothing else.  Each is closed by [exact] of a lemma
    proved in the Proofs* files and followed by Print Assumptions. *)
 From Coq Require Import Permutation.
-From Godi Require Import Base GDfs GKahn GKahnComplete GraphSpec Conc Web Model Check ProofsGraph ProofsConc ProofsWeb ProofsRegistry ProofsRuntime ProofsClosed ProofsTerm ProofsWf.
+From Godi Require Import Base GDfs GKahn GKahnComplete GraphSpec Conc Web Model Check ProofsGraph ProofsConc ProofsWeb ProofsRegistry ProofsRuntime ProofsClosed ProofsTerm ProofsWf ProofsSingle ProofsOutputs ProofsFresh ProofsGen ProofsFrame ProofsFrozen.
 
 (* ---------------------------------------------------------------- C01 *)
 Theorem C01_resolving_a_singleton_is_a_table_read : forall fuel rs h d,
   ds_life d = Singleton ->
   resolve_d (S fuel) rs h d =
   (rs, match lookup_i (p_single (rs_p rs)) (ds_ident d) with
-       | Some i => ROkV (AInst i)
+       | Some i => ROkV (aval_of i)
        | None => RFail ESingletonNotInit
        end).
 Proof. exact resolve_singleton_pure. Qed.
@@ -19,12 +19,41 @@ Theorem C01_same_instance_in_every_scope : forall fuel rs h1 h2 d,
 Proof. exact singleton_same_in_every_scope. Qed.
 Print Assumptions C01_same_instance_in_every_scope.
 
+(* "the constructor behind each singleton registration has run exactly once (during Build) and never runs again":
+   no resolution, in any scope, writes the singleton table or the provider's disposal list ... *)
+Theorem C01_resolution_never_constructs_a_singleton : forall fuel rs h d,
+  singles (rs_p (fst (resolve_d fuel rs h d))) = singles (rs_p rs).
+Proof. exact resolution_leaves_singletons. Qed.
+Print Assumptions C01_resolution_never_constructs_a_singleton.
+
+(* ... so the answer for a singleton is the same before and after any other resolution, from any scope ... *)
+Theorem C01_singleton_answer_is_stable : forall fuel rs h d fuel' h' d' fuel'' h'',
+  ds_life d = Singleton ->
+  snd (resolve_d (S fuel'') (fst (resolve_d fuel' rs h' d')) h'' d) = snd (resolve_d (S fuel) rs h d).
+Proof. exact singleton_answer_is_stable. Qed.
+Print Assumptions C01_singleton_answer_is_stable.
+
+(* ... and over every history of operations - registrations, further Builds, scope creation with its initializers,
+   resolutions, scope closes, context cancellations, closes of other providers - a provider's singleton table
+   and disposal list stay exactly what its Build made them, until that provider itself is closed *)
+Theorem C01_singletons_fixed_over_every_history : forall ops w pi,
+  pi < length (w_provs w) -> Forall (fun o => not_own_close o pi) ops -> keeps w (fst (run_from w ops)) pi.
+Proof. exact singletons_fixed_over_histories. Qed.
+Print Assumptions C01_singletons_fixed_over_every_history.
+
 (* ---------------------------------------------------------------- C02 *)
 Theorem C02_cached_scoped_instance_is_returned : forall fuel rs h d i,
   ds_life d = Scoped -> lookup_i (sc_cache (get_scope (rs_p rs) h)) (ds_ident d) = Some i ->
-  resolve_d (S fuel) rs h d = (rs, ROkV (AInst i)).
+  resolve_d (S fuel) rs h d = (rs, ROkV (aval_of i)).
 Proof. exact resolve_scoped_cached. Qed.
 Print Assumptions C02_cached_scoped_instance_is_returned.
+
+(* "two different scopes never share a scoped instance": a resolution in scope h - with everything it constructs
+   on the way - writes scope h only; every other scope of the provider is left exactly as it was *)
+Theorem C02_resolution_writes_its_own_scope_only : forall fuel rs h d k, h <> k ->
+  get_scope (rs_p (fst (resolve_d fuel rs h d))) k = get_scope (rs_p rs) k.
+Proof. exact resolution_leaves_other_scopes. Qed.
+Print Assumptions C02_resolution_writes_its_own_scope_only.
 
 (* under concurrency the statement is FALSE of the code as it is (finding F13, kept as a known finding): two
    goroutines that resolve one scoped service in one scope can both construct it.  Decided by computation on
@@ -42,11 +71,44 @@ Theorem C03_transient_constructed_at_every_request : forall fuel rs h d,
 Proof. exact resolve_transient_constructs. Qed.
 Print Assumptions C03_transient_constructed_at_every_request.
 
+(* "every request constructs a new instance": every construction takes the next invocation number of its
+   registration, numbers never go down, so what a transient request hands out was made by an invocation that had
+   not happened before the request and has happened after it *)
+Theorem C03_invocation_numbers_never_go_down : forall fuel rs h d,
+  inv_le (rs_invs rs) (rs_invs (fst (resolve_d fuel rs h d))).
+Proof. exact invocations_monotone. Qed.
+Print Assumptions C03_invocation_numbers_never_go_down.
+
+Theorem C03_transient_request_constructs_a_new_instance : forall fuel rs h d rs' i,
+  ds_life d = Transient ->
+  (forall t, r_form (ds_reg d) <> FInst t) ->
+  resolve_d (S fuel) rs h d = (rs', ROkV (AInst i)) ->
+  i = IVoid \/
+  exists inv k dyn, i = IObj (ds_rid d) inv k dyn /\
+    get_inv (rs_invs rs) (ds_rid d) <= inv < get_inv (rs_invs rs') (ds_rid d).
+Proof. exact transient_request_constructs_a_new_instance. Qed.
+Print Assumptions C03_transient_request_constructs_a_new_instance.
+
 (* ---------------------------------------------------------------- C04 *)
 Theorem C04_lookup_is_exact : forall c t k d,
   find_service c t k = Some d -> In d c /\ in_services d = true /\ ds_ty d = t /\ ds_key d = k.
 Proof. exact find_service_some. Qed.
 Print Assumptions C04_lookup_is_exact.
+
+(* "resolvable under exactly those identities and no others": the outputs of a multi-output constructor are
+   stored under the descriptors that the same registration call created for them, and an identity that none of
+   those descriptors carries - for instance one that was removed from the registration and taken by another
+   constructor - keeps its answers, in the singleton table and in every scope *)
+Theorem C04_outputs_go_to_their_own_descriptors : forall c d k sd,
+  output_desc c d k = Some sd -> In sd c /\ ds_rid sd = ds_rid d /\ ds_call sd = ds_call d /\ ds_out sd = k.
+Proof. exact fan_out_targets_are_the_registrations_own. Qed.
+Print Assumptions C04_outputs_go_to_their_own_descriptors.
+
+Theorem C04_outputs_written_under_no_other_identity : forall ks p h d inv h' n,
+  (forall sd, In sd (p_descs p) -> same_call sd d -> ds_ident sd <> n) ->
+  answers (fan_out p h d inv ks) h' n = answers p h' n.
+Proof. exact fan_out_writes_only_its_own_identities. Qed.
+Print Assumptions C04_outputs_written_under_no_other_identity.
 
 (* ---------------------------------------------------------------- C05 *)
 Theorem C05_reported_cycle_is_real : forall g nodes starts n,
@@ -169,6 +231,18 @@ Theorem C10_close_closes_each_exactly_once : forall c own l,
 Proof. exact close_insts_exact. Qed.
 Print Assumptions C10_close_closes_each_exactly_once.
 
+(* "and not before": a resolution closes nothing - every event it logs is a constructor invocation (or the
+   notice of a cancelled Build) - and the scope's disposal list only grows: what is owned stays owned until a Close *)
+Theorem C10_resolution_closes_nothing : forall fuel rs h d,
+  exists l, rs_ev (fst (resolve_d fuel rs h d)) = l ++ rs_ev rs /\ Forall construction_event l.
+Proof. exact resolution_closes_nothing. Qed.
+Print Assumptions C10_resolution_closes_nothing.
+
+Theorem C10_owned_instances_stay_owned_until_close : forall fuel rs h d k,
+  exists l, sc_disp (get_scope (rs_p (fst (resolve_d fuel rs h d))) k) = l ++ sc_disp (get_scope (rs_p rs) k).
+Proof. exact resolution_only_adds_owned_instances. Qed.
+Print Assumptions C10_owned_instances_stay_owned_until_close.
+
 (* ---------------------------------------------------------------- C11 *)
 Theorem C11_resolution_never_restructures_scopes : forall fuel rs h d sh,
   scopes_shape (rs_p rs) = sh -> scopes_shape (rs_p (fst (resolve_d fuel rs h d))) = sh.
@@ -241,6 +315,13 @@ Theorem C14_closed_scope_holds_nothing : forall fuel ord p h,
   sc_cache s' = [] /\ sc_disp s' = [] /\ sc_open s' = false.
 Proof. exact close_scope_releases. Qed.
 Print Assumptions C14_closed_scope_holds_nothing.
+
+(* ... and stays so: over every history a closed scope (other than the root) is never written again - its record
+   is exactly what Close left, whatever is resolved, created, closed, cancelled or built afterwards *)
+Theorem C14_closed_scope_is_never_written_again : forall ops s w pi k,
+  k <> 0 -> frozen_in s w pi k -> frozen_in s (fst (run_from w ops)) pi k.
+Proof. exact closed_scope_is_frozen. Qed.
+Print Assumptions C14_closed_scope_is_never_written_again.
 
 Theorem C14_failed_scope_creation_leaves_no_scope : forall w pi parent ctx w' evs c mods,
   pi < length (w_provs w) ->
